@@ -84,9 +84,12 @@ class HDict:
     def __init__(self, d=None, default=None):
         self.d = dict(d or {})      # python-hashable key -> SV   (keys: str / ('cls',name) / ('obj',id) / int)
         self.default = default
+        self.sym = []               # entries with symbolic keys, oldest first: (key SV, value SV); looked up latest first
 
     def copy(self):
-        return HDict(self.d, self.default)
+        h = HDict(self.d, self.default)
+        h.sym = list(self.sym)
+        return h
 
 
 class NeedConcreteMember(Unsupported):
@@ -257,7 +260,12 @@ class Engine:
                 return z3.BoolVal(self.enum_value(v) != 0) if isinstance(self.enum_value(v), int) else z3.BoolVal(True)
             return z3.BoolVal(True)
         if k == 'opq':
+            tv = getattr(self, 'opq_model_table', {}).get(v.x or 'any', {}).get('__truthy__')
+            if tv is not None:
+                return z3.BoolVal(tv)
             return self.ufunc('truthy', OPQ, BOOL)(v.t)
+        if k == 'gen':
+            return z3.BoolVal(True)
         raise Unsupported(f'truth of {v}')
 
     def as_int(self, v):
